@@ -18,6 +18,7 @@ fn any_msg_type() -> Type {
 //           SERIAL_NUM' = serial + 1 (mod 2^32)  (so the next call draws a strictly later ticket)
 //           frame: the other header fields are exactly the arguments / constants
 // @unit C15.primary_header_new props=C15 kind=complete fn=zbus::message::header::PrimaryHeader::new timeout=300
+#[cfg(not(verif_skip_c15_primary_header_new__complete))]
 #[cfg(kani)]
 #[kani::proof]
 fn c15_primary_header_new__complete() {
@@ -40,6 +41,7 @@ fn c15_primary_header_new__complete() {
 // calls return s1 and s2 with s2 = s1 + 1, except across the wrap where s1 = u32::MAX and s2 = 1.
 // Hence serials of consecutive calls are strictly increasing until the counter wraps.
 // @unit C15.consecutive_calls props=C15 kind=complete fn=zbus::message::header::PrimaryHeader::new timeout=300
+#[cfg(not(verif_skip_c15_consecutive_calls__complete))]
 #[cfg(kani)]
 #[kani::proof]
 fn c15_consecutive_calls__complete() {
@@ -53,6 +55,7 @@ fn c15_consecutive_calls__complete() {
 }
 
 // @unit CANARY.zbus props=CANARY kind=complete expect=fail timeout=300
+#[cfg(not(verif_skip_canary_zbus_must_fail))]
 #[cfg(kani)]
 #[kani::proof]
 fn canary_zbus_must_fail() {
@@ -70,6 +73,7 @@ type VErr = serde::de::value::Error;
 // contract deserialize_flags(b):  ensures Ok(flags) for EVERY byte, flags.bits() = b & 0b111
 // (known bits preserved exactly, unknown bits ignored -- never a parse error)
 // @unit C13.flags_decode props=C13 kind=complete fn=zbus::message::header::deserialize_flags timeout=300
+#[cfg(not(verif_skip_c13_flags_decode__complete))]
 #[cfg(kani)]
 #[kani::proof]
 #[kani::stub(alloc::fmt::format, stub_format)]
@@ -87,6 +91,7 @@ fn c13_flags_decode__complete() {
 
 // known message types decode to their variants; an unknown type code must not be a parse error
 // @unit C13.type_decode props=C13 kind=complete fn=<zbus::message::Type.as.serde::Deserialize>::deserialize timeout=300
+#[cfg(not(verif_skip_c13_type_decode__complete))]
 #[cfg(kani)]
 #[kani::proof]
 #[kani::stub(alloc::fmt::format, stub_format)]
@@ -111,6 +116,7 @@ fn c13_type_decode__complete() {
 // FieldsVisitor::visit_seq ignores) -- never an error.  Code 0 is INVALID in the specification and is
 // left unconstrained.
 // @unit C13.field_code_decode props=C13 kind=complete fn=<zbus::message::FieldCode.as.serde::Deserialize>::deserialize timeout=300
+#[cfg(not(verif_skip_c13_field_code_decode__complete))]
 #[cfg(kani)]
 #[kani::proof]
 #[kani::stub(alloc::fmt::format, stub_format)]
@@ -138,6 +144,7 @@ fn c13_field_code_decode__complete() {
 //            -- in particular for EVERY flags byte (unknown flag bits never make the header unparsable)
 //            Ok(h) ==> h carries exactly the decoded words (flags masked to the known bits)
 // @unit C13.primary_header_decode props=C13 kind=complete fn=<zbus::message::PrimaryHeader.as.serde::Deserialize>::deserialize,zbus::message::header::deserialize_flags timeout=600
+#[cfg(not(verif_skip_c13_primary_header_decode__complete))]
 #[cfg(kani)]
 #[kani::proof]
 #[kani::stub(alloc::fmt::format, stub_format)]
@@ -169,6 +176,54 @@ fn c13_primary_header_decode__complete() {
     kani::cover!(r.is_ok() && (f & 0xf8) != 0, "cover.ok_with_unknown_flags");
     kani::cover!(r.is_err(), "cover.err");
     core::mem::forget(r);
+}
+
+// ---- contract (C12): the entry points that index the first byte of a message ---------------------------------
+// ensures  for the EMPTY buffer (and every buffer too short for the fixed header) the result is an error, never a
+//          panic.  Complete in the lengths involved (0); longer buffers go through the serde-derived decoders, which
+//          are out of CBMC's reach (DESIGN §3) and are covered by C03/C04's leaf contracts.
+// The decoder callee is replaced by a stub that records being reached and fails: for an empty buffer the entry
+// points must return their error BEFORE handing the buffer to the decoder (the decoder's own behaviour on short
+// buffers is C03/C04's bounded contract: Err(OutOfBounds)).
+static mut DECODER_REACHED: bool = false;
+fn stub_read_from_data(_data: &serialized::Data<'_, '_>) -> Result<(PrimaryHeader, u32), Error> {
+    unsafe { DECODER_REACHED = true; }
+    Err(Error::InvalidField)
+}
+// @unit C12.primary_header_read.empty props=C12 kind=complete fn=zbus::message::header::PrimaryHeader::read timeout=600
+#[cfg(not(verif_skip_c12_primary_header_read__empty))]
+#[cfg(kani)]
+#[kani::proof]
+#[kani::stub(alloc::fmt::format, stub_format)]
+#[kani::stub(PrimaryHeader::read_from_data, stub_read_from_data)]
+#[kani::unwind(2)]
+fn c12_primary_header_read__empty() {
+    let buf: [u8; 0] = [];
+    let r = PrimaryHeader::read(&buf[..]);
+    let is_err = r.is_err();
+    core::mem::forget(r);
+    obl!("C12.primary_header_read.empty_buffer_is_an_error", is_err);
+    obl!("C12.primary_header_read.empty_buffer_never_reaches_the_decoder", unsafe { !DECODER_REACHED });
+}
+
+// @unit C12.from_raw_parts.empty props=C12 kind=complete fn=zbus::message::Message::from_raw_parts timeout=600
+#[cfg(not(verif_skip_c12_from_raw_parts__empty))]
+#[cfg(kani)]
+#[kani::proof]
+#[kani::stub(alloc::fmt::format, stub_format)]
+#[kani::stub(PrimaryHeader::read_from_data, stub_read_from_data)]
+#[kani::unwind(2)]
+fn c12_from_raw_parts__empty() {
+    let big: bool = kani::any();
+    let ctx = Context::new_dbus(if big { Endian::Big } else { Endian::Little }, 0);
+    static EMPTY: [u8; 0] = [];
+    let data = core::mem::ManuallyDrop::new(serialized::Data::new(&EMPTY[..], ctx));
+    let d2 = unsafe { core::ptr::read(&*data) };
+    let r = crate::message::Message::from_raw_parts(d2, 0);
+    let is_err = r.is_err();
+    core::mem::forget(r);
+    obl!("C12.from_raw_parts.empty_buffer_is_an_error", is_err);
+    obl!("C12.from_raw_parts.empty_buffer_never_reaches_the_decoder", unsafe { !DECODER_REACHED });
 }
 
 #[cfg(all(kani, test))]
